@@ -259,7 +259,7 @@ Print Assumptions C14_ntske_segmentation_refuted_pinned.
    caller's buffer held before, for every packet that fits the maximum packet length;
    nonce = the 16 bytes drawn, ct = the sealed ciphertext, both arbitrary here *)
 Theorem C14_nts_encode_wire : forall hdr tail p nonce ct,
-  length hdr = 48%nat -> (tail = [] \/ length tail = 976%nat) ->
+  length hdr = 48%nat ->
   (32 <= length (ni_id p))%nat -> length nonce = 16%nat ->
   (nts_wire_len p ct <= 1024)%nat ->
   nts_encode hdr tail p nonce ct = Ok (nts_wire hdr p nonce ct).
@@ -271,7 +271,7 @@ Print Assumptions C14_nts_encode_wire.
    and the authenticator (0x404) with the same nonce and ciphertext; values come back
    zero-padded to a multiple of 4 (decode (encode v) = pad4 v), lengths are 4 + |pad4 v| *)
 Theorem C14_nts_fields : forall hdr tail p nonce ct p0,
-  length hdr = 48%nat -> (tail = [] \/ length tail = 976%nat) ->
+  length hdr = 48%nat ->
   (32 <= length (ni_id p))%nat -> length nonce = 16%nat -> (16 <= length ct)%nat ->
   (nts_wire_len p ct <= 1024)%nat ->
   exists e, nts_encode hdr tail p nonce ct = Ok e /\ e = nts_wire hdr p nonce ct /\
